@@ -17,6 +17,7 @@ import (
 	"time"
 
 	sgbucket "github.com/couchbase/sg-bucket"
+	"github.com/couchbaselabs/rosmar"
 	"pgregory.net/rapid"
 )
 
@@ -393,6 +394,31 @@ func runFeedScenario(c tfCase) (res shutResult) {
 			continue
 		}
 		verify(a.Do)
+	}
+	if storeDown {
+		// a feed started now - through another handle, on a data store object obtained while the
+		// store was up - has nothing to attach to: the start fails, or the feed ends at once
+		for h := range w.Handles {
+			ds, _ := w.colls[h][0].(*rosmar.Collection)
+			if ds == nil {
+				continue
+			}
+			done := make(chan struct{})
+			args := sgbucket.FeedArguments{ID: fmt.Sprintf("late%d", h), Backfill: sgbucket.FeedNoBackfill, Terminator: make(chan bool), DoneChan: done}
+			var serr error
+			if p := safely(func() { serr = ds.StartDCPFeed(ctx, args, func(sgbucket.FeedEvent) bool { return true }, nil) }); p != "" {
+				bad("tf.panic", "StartDCPFeed through handle %d after the store was shut down panicked: %s", h, p)
+				continue
+			}
+			if serr == nil {
+				select {
+				case <-done:
+				case <-time.After(4 * time.Second):
+					bad("tf.lateleak", "a feed started through handle %d after the store had been shut down (through another handle) was accepted and never ended", h)
+				}
+			}
+			logf("late feed via h%d: err=%v", h, serr)
+		}
 	}
 	for i, st := range feeds {
 		if n := st.col.afterDone.Load(); n > 0 {
